@@ -414,6 +414,18 @@ pub fn make_inputs(seed: u64, tier: Tier, ticks: bool) -> Inputs {
                 a[i].1 = simrun::GVal::Str("another value".into());
                 alt_globs.push(a);
             }
+            // an ill-typed supply (a string for a list global) and an incomplete one: the same
+            // loaded file must report them although an earlier call was given a good supply
+            if let Some(i) = globs.iter().position(|(_, v)| matches!(v, simrun::GVal::List(_))) {
+                let mut a = globs.clone();
+                a[i].1 = simrun::GVal::Str("not a list".into());
+                alt_globs.push(a);
+            }
+            if !globs.is_empty() {
+                let mut a = globs.clone();
+                a.remove(0);
+                alt_globs.push(a);
+            }
             Inputs { kind: "generated".into(), text: g.prog.render(), sources, globs, alt_globs, variants }
         }
     }
